@@ -1,0 +1,18 @@
+//go:build verif
+
+package lexer
+
+// VerifByteClasses exposes the byte predicates of the lexer by name (verification hook: the
+// translator tabulates them over all 256 bytes).
+func VerifByteClasses() map[string]func(byte) bool {
+	return map[string]func(byte) bool{
+		"isLetter":            isLetter,
+		"isDigit":             isDigit,
+		"IsAlphaNum":          IsAlphaNum,
+		"isBinaryDigit":       isBinaryDigit,
+		"isDigitOrUnderscore": isDigitOrUnderscore,
+		"isHexDigit":          isHexDigit,
+		"isWhiteSpace":        isWhiteSpace,
+		"notEOL":              notEOL,
+	}
+}
